@@ -326,21 +326,25 @@ class RefModel:
                     out.add((r['id'], frozenset((p, m[0][p]) for p in m[1])))
         return out
 
-    def pkt_matches(self, pkt):
+    def pkt_matches(self, pkt, lost_repeat=False):
         """[(def index, env)]"""
         out = []
+        lr = self.origin if lost_repeat else None
         for i, chs in enumerate(self.def_chains):
             for ch in chs:
-                m = match_chain(ch, pkt, None, self.fns)
+                m = match_chain(ch, pkt, None, self.fns, lost_repeat=lr)
                 if m is not None:
                     out.append((i, {p: m[0][p] for p in m[1]}))
         return out
 
-    def check(self, pkt, key, skip_cons_on_bound=False, pkt_matches=None):
-        for i, env in (self.pkt_matches(pkt) if pkt_matches is None else pkt_matches):
+    def check(self, pkt, key, skip_cons_on_bound=False, pkt_matches=None, lost_repeat=False):
+        lr = self.origin if lost_repeat else None
+        if pkt_matches is None or lost_repeat:
+            pkt_matches = self.pkt_matches(pkt, lost_repeat)
+        for i, env in pkt_matches:
             for s in self.schema['rules'][i]['signers']:
                 for kch in self.rule_chains.get(s, []):
-                    if match_chain(kch, key, env, self.fns, skip_cons_on_bound) is not None:
+                    if match_chain(kch, key, env, self.fns, skip_cons_on_bound, lost_repeat=lr) is not None:
                         return True
         return False
 
